@@ -42,10 +42,18 @@ def plan(tier, seed):
             parts.append(Part(H, "discovery", {"alphabet": alph, "c1": c1, "l1": l1}, 900 if tier == "quick" else 6000, 120,
                               "find_files / list_records / _infer_name keep prefix-related records apart", weight=4 * l1))
     parts.append(Part(H, "name_validity", {}, 300, 60, "record name validity == [A-Za-z0-9-]+"))
+    # file lists in any order with any (also two-digit) patch indices: a coherent chain is found and accepted
+    # regardless of list order (chain harness of C04: symbolic indices 0..12, symbolic links)
+    for n, h in ((2, [1, 1]), (2, [1, 0]), (3, [1, 1, 1]), (3, [1, 1, 0])):
+        parts.append(Part("vt.harness.c04", "chain", {"n": n, "h": h}, 600, 60,
+                          "explicit file list in any order: accepted iff it is a coherent chain (ordering by patch index is numeric)"))
     return parts
 
 
 def confirm(part, kwargs, native):
     """Stage 2: the same scenario on real h5py files in a temp directory."""
+    if part.module.endswith("c04"):
+        from vt.props import c04
+        return c04.confirm(part, kwargs, native)
     from vt import recreplay
     return recreplay.confirm(part, kwargs, native)
